@@ -254,8 +254,50 @@ def long_run(b, v, tier):
                 break
     if outs[0] != outs[1]:
         v.violation("two separate runs over a long log with one key file give different outputs", rep)
+    # (b) long values that agree on a long prefix (buffer sizes 1 KiB ... 32 KiB) and the tool's own ciphertexts fed back as values, same key
+    specials = []
+    for base in (1023, 1024, 4095, 4096, 4097, 8192, 16384, 32768):
+        stem = ("v%05d-" % base + "abcdefghij" * 4000)[:base]
+        specials += [stem, stem + "x", stem + "y", stem + "xy" * 300]
+    fed_back = cts[:1500] if len(cts) == len(order) else []
+    specials += fed_back + [text(i) for i in order[:1500]]
+    inp2 = os.path.join(wd, "long2.log")
+    with open(inp2, "w", encoding="utf-8") as f:
+        for n, sv in enumerate(specials):
+            f.write('{"t":{"$date":"2025-01-01T00:00:00.000+00:00"},"s":"I","c":"COMMAND","id":%d,"ctx":"conn1","msg":"Slow query","attr":{"ns":"dbq.cq",'
+                    '"command":{"find":"cq","filter":{"k":%s},"$db":"dbq"}}}\n' % (7500000 + n, json.dumps(sv, ensure_ascii=False)))
+    outp2 = os.path.join(wd, "long2.out")
+    p2 = common.run_cli(b, ["redact", inp2, "-o", outp2, "--encrypt", "-q", key], cwd=wd)
+    v.count()
+    if p2.returncode != 0:
+        v.violation("a log with long values / fed-back ciphertexts stops an --encrypt run", {"exit": p2.returncode, "stderr": p2.stderr.decode("utf-8", "replace")[:300]})
+    else:
+        cts2 = _re.findall(r'"filter":\{"k":"([^"]*)"\}', open(outp2, encoding="utf-8").read())
+        if len(cts2) != len(specials):
+            v.violation("a log with long values / fed-back ciphertexts does not yield one encrypted value per line", {"values": len(specials), "found": len(cts2)})
+        else:
+            seen2 = {}
+            for sv, ct in zip(specials, cts2):
+                what = "a ciphertext of an earlier run under the same key" if sv in fed_back else "a value of %d bytes" % len(sv.encode("utf-8"))
+                if ct == sv:
+                    v.violation("a sensitive string is emitted unchanged with --encrypt (%s)" % ("its own earlier ciphertext" if sv in fed_back else "long value"),
+                                {"value_head": sv[:80], "value_bytes": len(sv.encode("utf-8"))})
+                    break
+                if seen2.setdefault(ct, sv) != sv:
+                    o = seen2[ct]
+                    v.violation("different strings, equal ciphertexts (%s)" % ("values that agree on a long prefix" if sv not in fed_back and o not in fed_back and len(sv) > 900 else
+                                                                              "a value and the ciphertext an earlier run made of it" if (sv in fed_back) != (o in fed_back) else "other"),
+                                {"a_bytes": len(sv.encode("utf-8")), "b_bytes": len(o.encode("utf-8")), "a_head": sv[:60], "b_head": o[:60], "common_prefix": len(os.path.commonprefix([sv, o]))})
+                    break
+            # equal strings of the two runs get equal ciphertexts
+            if len(cts) == len(order):
+                first = dict(zip((text(i) for i in order), cts))
+                for sv, ct in zip(specials[-1500:], cts2[-1500:]):
+                    if first.get(sv) is not None and first[sv] != ct:
+                        v.violation("equal strings, different ciphertexts in two runs with one key file", {"value": sv, "run1": first[sv], "run2": ct})
+                        break
     _sh.rmtree(wd, ignore_errors=True)
-    return len(order)
+    return len(order) + len(specials)
 
 
 def run(tier):
